@@ -12,7 +12,8 @@ NOTE_COMMON = ("Trusted: Lean kernel; axioms limited to propext/Classical.choice
 CLAIMED = {
     "C05": dict(
         text="Proof (Lean 4) that the model's run is a function of (machines, fractions, start, oracle, history) only, that a clone continues identically, "
-             "and of the unfolding equations that are the documented semantics; the implementation is tied to that model by a correspondence on actions, "
+             "of the unfolding equations that are the documented semantics, and that a call takes nothing from the previous call beyond runtime and accounting "
+             "(stale action slots, stale once-per-call flags and the previous clock value are irrelevant; a prefix of the history returns a prefix of the results); the implementation is tied to that model by a correspondence on actions, "
              "full internal snapshot and internal log after every call, plus a harness-side double run and mid-history clone.",
         ref="5 (C05)",
         technique="Lean 4 theorems on a hand-written executable model + differential correspondence (snapshot/log/actions) against the Rust framework",
